@@ -132,8 +132,9 @@ func mtimeAtoms(p provSet) []string {
 }
 
 func checkC07(c *Ctx, r *Report) {
-	r.Rules = []string{"T1 single clock gate", "T1 gate fed from configured/entry mtime", "T1 entry mtime defaulting", "T1 host-name gate", "T1 no other nondeterminism source", "T2 order-insensitive map iteration", "T4 no non-constant compressor header field", "T5 no goroutine", "fixture (positive examples)"}
+	r.Rules = []string{"T1 single clock gate", "T1 gate fed from configured/entry mtime", "T1 entry mtime defaulting", "T1 host-name gate", "T1 no other nondeterminism source", "T2 order-insensitive map iteration", "T4 no non-constant compressor header field", "T5 no goroutine", "fixture (positive examples)", "T6-no-carried-state no package-level variable is written on a packaging path"}
 	r.Explanation = "Who-may-call and effect rules over go/ssa on all non-test module code: the wall clock is read only inside internal/modtime.Get and every call of it passes the configured package mtime or the entry's mtime first (so a configured mtime makes the clock fallback dead); prepared entries get the package mtime when they have none; os.Hostname is reachable only when no build host is configured (decided by abstract evaluation with the field fixed); no other nondeterminism source (environment, math/rand, pid, cwd, CPU count, user) is called from packaging code outside the enumerated gates; every map iteration is order-insensitive by an enumerated idiom or sorted; compressor header fields get no non-constant value; module code starts no goroutine. Each zero-count rule is run against a positive fixture on every run. These are necessary conditions for reproducible output; byte equality of two runs is not computed."
+	r.Explanation += " (T6) no function on a packaging path writes a package-level variable, directly or through sync.Map: nothing computed for one build can reach the next build in the same process."
 	r.Assumptions = []string{
 		"pgzip, zstd, xz and compress/gzip output does not depend on GOMAXPROCS, scheduling or the clock when no header field is set (library property)",
 		"text/template visits map keys in sorted order (deb/ipk custom fields)",
